@@ -125,6 +125,8 @@ PACKED_TYPES = [
 WIRE_VARINT = 0
 WIRE_FIXED_64 = 1
 WIRE_LEN_DELIM = 2
+WIRE_START_GROUP = 3
+WIRE_END_GROUP = 4
 WIRE_FIXED_32 = 5
 
 # Mappings of which Proto 3 types correspond to which wire types.
@@ -570,12 +572,21 @@ def load_varint(stream: "SupportsRead[bytes]") -> Tuple[int, bytes]:
     """
     Load a single varint value from a stream. Returns the value and the raw bytes read.
     """
+    return _load_varint_after(stream.read(1), stream)
+
+
+def _load_varint_after(
+    first: bytes, stream: "SupportsRead[bytes]"
+) -> Tuple[int, bytes]:
+    """Load a varint whose first byte has already been read from the stream."""
     result = 0
     raw = b""
+    b = first
     for shift in count(0, 7):
         if shift >= 64:
             raise ValueError("Too many bytes when decoding varint.")
-        b = stream.read(1)
+        if shift:
+            b = stream.read(1)
         if not b:
             raise EOFError("Stream ended unexpectedly while attempting to load varint.")
         raw += b
@@ -604,30 +615,64 @@ class ParsedField:
     raw: bytes
 
 
+def _read_exact(stream: "SupportsRead[bytes]", size: int) -> bytes:
+    data = stream.read(size)
+    if len(data) != size:
+        raise EOFError(
+            f"Stream ended unexpectedly: expected {size} bytes, got {len(data)}."
+        )
+    return data
+
+
+def _load_field_value(
+    stream: "SupportsRead[bytes]", number: int, wire_type: int
+) -> Tuple[Any, bytes]:
+    """
+    Load the payload of a field whose tag has just been read. Returns the decoded
+    value and the raw bytes read (without the tag).
+    """
+    if number == 0:
+        raise ValueError("Invalid field number 0.")
+    if wire_type == WIRE_VARINT:
+        return load_varint(stream)
+    if wire_type == WIRE_FIXED_64:
+        decoded = _read_exact(stream, 8)
+        return decoded, decoded
+    if wire_type == WIRE_LEN_DELIM:
+        length, raw = load_varint(stream)
+        decoded = _read_exact(stream, length)
+        return decoded, raw + decoded
+    if wire_type == WIRE_FIXED_32:
+        decoded = _read_exact(stream, 4)
+        return decoded, decoded
+    if wire_type == WIRE_START_GROUP:
+        # Groups (proto2) are not supported: skip to the matching end tag so that
+        # the group as a whole can be kept as a single unknown field.
+        raw = b""
+        while True:
+            num_wire, r = load_varint(stream)
+            raw += r
+            if num_wire & 0x7 == WIRE_END_GROUP:
+                if num_wire >> 3 != number:
+                    raise ValueError("Mismatched end-group tag.")
+                return None, raw
+            _, r = _load_field_value(stream, num_wire >> 3, num_wire & 0x7)
+            raw += r
+    raise ValueError(f"Invalid wire type {wire_type}.")
+
+
 def load_fields(stream: "SupportsRead[bytes]") -> Generator[ParsedField, None, None]:
     while True:
-        try:
-            num_wire, raw = load_varint(stream)
-        except EOFError:
+        first = stream.read(1)
+        if not first:
+            # The stream ended cleanly, i.e. at a field boundary.
             return
+        num_wire, raw = _load_varint_after(first, stream)
         number = num_wire >> 3
         wire_type = num_wire & 0x7
 
-        decoded: Any = None
-        if wire_type == WIRE_VARINT:
-            decoded, r = load_varint(stream)
-            raw += r
-        elif wire_type == WIRE_FIXED_64:
-            decoded = stream.read(8)
-            raw += decoded
-        elif wire_type == WIRE_LEN_DELIM:
-            length, r = load_varint(stream)
-            decoded = stream.read(length)
-            raw += r
-            raw += decoded
-        elif wire_type == WIRE_FIXED_32:
-            decoded = stream.read(4)
-            raw += decoded
+        decoded, r = _load_field_value(stream, number, wire_type)
+        raw += r
 
         yield ParsedField(number=number, wire_type=wire_type, value=decoded, raw=raw)
 
